@@ -94,7 +94,7 @@ def gen_configs(tier, seed, *, with_interrupts):
         # process-group interrupts (chain = 0): every chain running at that point is interrupted
         for name, s_, k_, site in (("warm+main", 1, 2, "trans"), ("traced-warm+main", 1, 1, "trace"),
                                    ("traced-warm+main", 2, 2, "trace"), ("windowed", 2, 1, "trans")):
-            for nchain, nproc in ((2, 0), (2, 2), (3, 3)) + (((3, 2),) if tier == "thorough" else ()):
+            for nchain, nproc in ((2, 0), (2, 2), (3, 3), (3, 2)):
                 cfgs.append(make_cfg(name, nchain, nproc, {"stage": s_, "chain": 0, "k": k_, "site": site}))
     return cfgs
 
@@ -214,7 +214,7 @@ def run_real(cfg, *, seed=1234, storage="mem", delays=None, event_dir=None, init
         with warnings.catch_warnings(), contextlib.redirect_stdout(io.StringIO()):
             warnings.simplefilter("ignore")
             out = sampler.sample_chains(
-                0, cfg["nrows"], init_states, trace_funcs=[P.probe_trace], adapters={"probe": []},
+                0, cfg["nrows"], init_states, trace_funcs=[P.decoy_trace, P.probe_trace], adapters={"probe": []},
                 stager=P.FixedStager(layout), n_process=n_process, trace_warm_up=False,
                 display_progress=event_dir is not None, progress_bar_class=P.ProbeBar if event_dir else None, **kw)
             if second_call:
@@ -223,7 +223,7 @@ def run_real(cfg, *, seed=1234, storage="mem", delays=None, event_dir=None, init
                 P.PLAN["interrupt"] = None
                 xs2 = [np.array([c + 10.0, 0.0, np.nan, 0.0, 0.0]) for c in range(1, nchain + 1)]
                 out2 = sampler.sample_chains(
-                    0, cfg["nrows"], [ChainState(x=x) for x in xs2], trace_funcs=[P.probe_trace],
+                    0, cfg["nrows"], [ChainState(x=x) for x in xs2], trace_funcs=[P.decoy_trace, P.probe_trace],
                     adapters={"probe": []}, stager=P.FixedStager(layout), n_process=n_process, trace_warm_up=False,
                     display_progress=False, **kw)
                 obs["second_final"] = [[int(s_.x[0]), int(s_.x[1])] for s_ in out2.final_states]
@@ -248,7 +248,7 @@ def run_real(cfg, *, seed=1234, storage="mem", delays=None, event_dir=None, init
                 if np.isnan(x[0]):
                     rows_t.append([0, 0] if kk == 0 else [-1, -1])
                 else:
-                    rows_t.append([int(x[1]) if int(x[0]) == c + 1 and int(kk) == int(x[1]) else -1,
+                    rows_t.append([int(x[1]) if int(x[0]) == c + 1 and int(kk) == int(x[1]) and len(x) == 5 else -1,
                                    streams[c].get(float(x[2]), -1)])
             stt = out.statistics["probe"]
             k = int(stt["k"][c][r])
@@ -408,6 +408,13 @@ def judge(cfg, obs, terms, storage="mem", tag=""):
         elif obs["finals"] != fin_want:
             viol.append(("C14", f"C14:{mode.split('(')[0]}:final-state-stream", f"final states {obs['finals']} carry draws that are not the chain's own stream position ({lay}, {mode})"))
     else:
+        if terms:
+            want_ids = {tuple(x[0] for x in t["finals"]) for t in terms.values()}
+            got_ids = tuple(f[0] for f in obs["finals"])
+            if got_ids not in want_ids:
+                viol.append(("C15", f"C15:{mode.split('(')[0]}:final-states-of-started-chains",
+                             f"final states returned for chains {list(got_ids)}, but the chains that were run are {sorted(want_ids)} "
+                             f"({lay}, {mode}, interrupt {cfg['intr']})"))
         for f in obs["finals"]:
             if not (1 <= f[0] <= nchain and 0 <= f[1] <= total and (f[2] >= 1 or f[1] == 0)):
                 viol.append(("C15", f"C15:{mode.split('(')[0]}:final-state-invalid", f"returned final state {f} is not a valid chain state ({lay}, {mode}, interrupt {cfg['intr']})"))
